@@ -379,6 +379,13 @@ def run_case(ctx, desc):
                     layer.clear(submodules=False)
                     hand.fb_spikes = None
                 ctx.count("partial_clears")
+            if t in (2, 5) and desc.get("updaters"):
+                # the layer's update between two steps (nothing pending: a no-op on the parameters): it forwards to its connections'
+                # update, which applies and clears ACCUMULATED UPDATES - the dynamic state of synapses and neurons is not its business
+                layer.update()
+                for c in pH.conns.values():
+                    c.update()
+                ctx.count("layer_updates_between_steps")
             outs, inter = _step_layer(desc, layer, x)
         except Exception as e:  # noqa: BLE001
             return ctx.violation(ctx.exc_signature(e, f"forward.{tag}"), f"{type(e).__name__}: {str(e)[:160]}", rdesc)
